@@ -354,6 +354,7 @@ impl From<SupportedRegister> for Register {
             SupportedRegister::R13 => Register::R13,
             SupportedRegister::R14 => Register::R14,
             SupportedRegister::R15 => Register::R15,
+            SupportedRegister::EIP => Register::EIP,
             SupportedRegister::EAX => Register::EAX,
             SupportedRegister::EBX => Register::EBX,
             SupportedRegister::ECX => Register::ECX,
@@ -543,7 +544,7 @@ impl Axecutor {
     pub fn reg_write_64(&mut self, reg: SupportedRegister, value: u64) -> Result<(), AxError> {
         let r: Register = reg.into();
         assert_fatal!(
-            r.is_gpr64() || r.is_ip(),
+            r.is_gpr64() || r == Register::RIP,
             "{:?} is not a valid 64-bit register",
             r
         );
@@ -625,7 +626,7 @@ impl Axecutor {
     pub fn reg_read_64(&self, reg: SupportedRegister) -> Result<u64, AxError> {
         let r: Register = reg.into();
         assert_fatal!(
-            r.is_gpr64() || r.is_ip(),
+            r.is_gpr64() || r == Register::RIP,
             "{:?} is not a valid 64-bit register",
             r
         );
